@@ -72,7 +72,7 @@ META = {
             "trusted: harness plugins + whole-run oracle (vf/harness); capacity drawn above the lag; real-thread "
             "timeouts are inconclusive; bounds: <= 2 sources, <= 6 derived plugins, <= 14 rows per source"
         ),
-        "technique": "differential runtime oracle (chunked real pipeline vs whole-run reference) on random graphs/chunkings/configs + always-on chunk-law contracts",
+        "technique": "differential runtime oracle (chunked real pipeline vs whole-run reference) on random graphs/chunkings/configs, incl. a multiprocessing family (process pool, inlined plugins and savers) + always-on chunk-law contracts",
     },
     "C08": {
         "level_text": (
@@ -85,7 +85,7 @@ META = {
             "enumerated; larger cases are random."
         ),
         "level_note": "trusted: the event recorder in vf/harness/plugins.py; same-kind deps share row intervals",
-        "technique": "offline checker over recorded compute-call event logs (exactly-once, ordering, alignment) on exhaustive small + random chunkings",
+        "technique": "offline checker over recorded compute-call event logs (exactly-once, ordering, alignment) on exhaustive small + random chunkings; differential run of a two-input plugin inlined into a process pool",
     },
     "C09": {
         "level_text": (
@@ -182,7 +182,7 @@ META = {
             "clock still 0. Fault-free runs must finish with the right rows on every schedule."
         ),
         "level_note": "trusted: vf/sched/coop.py + shims; termination only as 'no deadlock / no virtual timeout on explored schedules'",
-        "technique": "fault injection at enumerated (stage, chunk) positions under a cooperative deterministic scheduler with virtual time; exception-identity and thread-termination monitors",
+        "technique": "fault injection at enumerated (stage, chunk) positions under a cooperative deterministic scheduler with virtual time (+ real threads, + failures inside process-pool workers); exception-identity and thread-termination monitors",
     },
     "C13": {
         "level_text": (
@@ -210,7 +210,7 @@ META = {
             "have saved its outputs."
         ),
         "level_note": "trusted: audit-hook tracer (sees Python-level file operations), POSIX rename atomicity, no lost page-cache model",
-        "technique": "fault enumeration over the recorded file-system event trace (exception / process death / torn write at every event) + fresh-context state oracle + retry",
+        "technique": "fault enumeration over the recorded file-system event trace (exception / process death / torn write at every event; for inlined savers also inside the pool worker processes) + fresh-context state oracle + retry",
     },
     "C02": {
         "level_text": (
